@@ -19,6 +19,7 @@ Twin of the read path of the gNMI Get handler (pkg/northbound/gnmi/v2):
 Paths are ASCII (`len` in bytes = length in characters).  Core-only: linked into the driver.
 -/
 import OnosVerif.Path.Model
+import OnosVerif.Value.Enc
 import OnosVerif.Generated.Facts
 
 namespace OnosVerif.NBGet
@@ -91,7 +92,7 @@ inductive Upd
   | value (path : GPath) (v : Str)
   /-- JSON: the request path and the leaves of the document -/
   | doc (path : Option GPath) (leaves : List (Str × Str))
-deriving Repr
+deriving DecidableEq, Repr
 
 inductive Fail | parse | unmodelled
 deriving DecidableEq, Repr
@@ -138,6 +139,20 @@ def protoUpdates (prefixPath : Str) : List Stored → Except Fail (List Upd)
         | .error e => .error e
         | .ok us => .ok (.value p cv.value :: us)
 
+/-- `prefixPath` of `createUpdate`: `StrPathElem(prefix.Elem)`, empty without a prefix. -/
+def prefixPathOf (pfx : Option PathMsg) : Str :=
+  match pfx with
+  | some x => strPathElem x.elems
+  | none => []
+
+/-- the query text of one notification (`none`: the request has a prefix only). -/
+def queryOf (pfx : Option PathMsg) (path : Option GPath) : Str :=
+  match path with
+  | some p => queryText pfx p
+  | none => match pfx with
+    | some x => prefixOnlyText x
+    | none => ['/']
+
 /-- `createUpdate(prefix, path, configValues, encoding)`. -/
 def createUpdate (pfx : Option PathMsg) (path : Option GPath) (vals : List Stored) (enc : Enc) :
     Except Fail (List Upd) :=
@@ -146,17 +161,12 @@ def createUpdate (pfx : Option PathMsg) (path : Option GPath) (vals : List Store
     match enc with
     | .json => .ok [.doc path (vals.map fun s => (s.path, s.value))]
     | .proto =>
-      protoUpdates (match pfx with | some x => strPathElem x.elems | none => []) vals
+      protoUpdates (prefixPathOf pfx) vals
 
 /-- one notification of the response: `getUpdate` for one path of the request (`none`: the
     request has a prefix only). -/
 def notification (pfx : Option PathMsg) (path : Option GPath) (vals : List Stored) (enc : Enc) :
     Except Fail (List Upd) :=
-  let q := match path with
-    | some p => queryText pfx p
-    | none => match pfx with
-      | some x => prefixOnlyText x
-      | none => ['/']
-  createUpdate pfx path (selected q vals) enc
+  createUpdate pfx path (selected (queryOf pfx path) vals) enc
 
 end OnosVerif.NBGet
